@@ -159,7 +159,10 @@ pub fn cmp_stages(r: &mut Report) {
         }
     }
     // const-evaluated accessors and the predicate table
-    r.comparisons += 7;
+    r.comparisons += 9;
+    if !c::R_MODS_NUMLOCK || !c::R_MODS.numlock || c::R_PS2.add_word(0x0402) != t::t_ps2().add_word(0x0402) || c::SR_PS2.add_word(0x0402) != Ok(0x01) {
+        bad(r, "references to const-built objects give wrong values".into());
+    }
     if c::C_PRED_TABLE != t::pred_table() || c::S_PRED_TABLE != t::pred_table() {
         bad(r, "const-evaluated predicate table differs from the runtime one".into());
     }
